@@ -79,6 +79,14 @@ JavaAgreesWithDef == phase = 1 =>
    /\ Sub(Add(Big, One), One) = NaR /\ Lt(Big, Add(Big, Neg(One)))  = FALSE /\ Lt(Add(Big, Neg(One)), Big)
    /\ Mul(<<65536, 1>>, <<65536, 1>>) = NaR /\ Div(<<65536, 1>>, <<1, 65536>>) = NaR
    /\ Mul(<<65536, 3>>, <<3, 65536>>) = One
+(* linearity in the control points; scaling all weights and points (the lemmas behind the huge-rational mode) *)
+Linear == phase = 1 =>
+   LET n == Npts(U) a == Q(7, 3) b == R(-2) Pq == Gen2(n)
+       comb == [i \in 1..n |-> Add(Mul(a, P[i]), Mul(b, Pq[i]))]
+       M == Q(5, 7) W == WGen1(n) IN
+   \A u \in Grid :
+      /\ Eval(Poly(U, comb), u) = Add(Mul(a, Eval(Poly(U, P), u)), Mul(b, Eval(Poly(U, Pq), u)))
+      /\ Eval(Curve(U, [i \in 1..n |-> Mul(M, P[i])], [i \in 1..n |-> Mul(M, W[i])]), u) = Mul(M, Eval(Curve(U, P, W), u))
 ReparamInvariant == phase = 1 => \A s \in {Two, Q(1, 3)}, a \in {R(-3), Half} :
      LET V == [i \in DOMAIN U |-> Add(Mul(U[i], s), a)] IN
        \A u \in Grid : Eval(Poly(V, P), Add(Mul(u, s), a)) = Eval(Poly(U, P), u)
